@@ -32,6 +32,7 @@ Separate Extraction
   WalCodec.wal_new_file WalCodec.wal_update_next WalCodec.canon WalCodec.wf_entry
   Memtable.mt_iter_entries Memtable.seek_ge Memtable.mt_put Memtable.mt_del Memtable.mt_get
   Memtable.mt_set_imm Memtable.mt_empty
+  Memtable.h_new Memtable.h_first Memtable.h_seek Memtable.h_next
   Engine.init Engine.put Engine.del Engine.apply_batch Engine.tx_commit Engine.get Engine.flush
   Engine.reopen Engine.run Engine.buffer_ops
   ReadOnly.start ReadOnly.step_client ReadOnly.step_repl ReadOnly.node_get ReadOnly.tx_get
